@@ -507,4 +507,55 @@ theorem encodeMap_ok_tree (C : Codec V) (pay : V → List Bool × List Cell) :
       rw [this, heL, heR]
       simp [HTree.toCell]
 
+/-! ### `Compare` of the typed keys is the model's comparison of their encodings -/
+
+theorem bytesToBits_length (a : List UInt8) : (bytesToBits a).length = 8 * a.length := by
+  induction a with
+  | nil => rfl
+  | cons x a ih =>
+    simp only [bytesToBits, List.flatMap_cons, List.length_append, List.length_cons] at ih ⊢
+    rw [ih]; simp [byteToBits]; omega
+
+theorem uint_compare_eq (n a b : Nat) (ha : a < 2 ^ n) (hb : b < 2 ^ n) :
+    ltUnsigned (natToBits n a) (natToBits n b) = decide (a < b) := by
+  simp [ltUnsigned, bitsToNat_natToBits, Nat.mod_eq_of_lt ha, Nat.mod_eq_of_lt hb]
+
+/-- `uint32(int8 workchain)` as Go computes it -/
+def u32OfInt (wc : Int) : Nat := (wc % (2 ^ 32 : Int)).toNat
+
+/-- AddressWithWorkchain.Compare on the typed key: uint32 of the workchain, then bytes.Compare of the address -/
+def ltAddr (wc1 : Int) (a1 : List UInt8) (wc2 : Int) (a2 : List UInt8) : Bool :=
+  decide (u32OfInt wc1 < u32OfInt wc2) || (u32OfInt wc1 == u32OfInt wc2 && ltBytes a1 a2)
+
+theorem u32OfInt_lt (wc : Int) : u32OfInt wc < 2 ^ 32 := by
+  unfold u32OfInt
+  have h1 : (0 : Int) ≤ wc % 2 ^ 32 := Int.emod_nonneg _ (by decide)
+  have h2 : wc % (2 ^ 32 : Int) < 2 ^ 32 := Int.emod_lt_of_pos _ (by decide)
+  have : ((wc % (2 ^ 32 : Int)).toNat : Int) < ((2 ^ 32 : Nat) : Int) := by
+    rw [Int.toNat_of_nonneg h1]; exact_mod_cast h2
+  exact_mod_cast this
+
+theorem addr_compare_eq (wc1 wc2 : Int) (a1 a2 : List UInt8) (h : a1.length = a2.length) :
+    ltAddr wc1 a1 wc2 a2 = lexLt (intToBits 32 wc1 ++ bytesToBits a1) (intToBits 32 wc2 ++ bytesToBits a2) := by
+  have e1 : intToBits 32 wc1 = natToBits 32 (u32OfInt wc1) := rfl
+  have e2 : intToBits 32 wc2 = natToBits 32 (u32OfInt wc2) := rfl
+  rw [lexLt_append_eqlen _ _ _ _ (by simp [intToBits]), ← ltBytes_eq_lexLt a1 a2 h, e1, e2]
+  have hl := lexLt_iff_bitsToNat (natToBits 32 (u32OfInt wc1)) (natToBits 32 (u32OfInt wc2)) (by simp)
+  simp only [bitsToNat_natToBits, Nat.mod_eq_of_lt (u32OfInt_lt wc1), Nat.mod_eq_of_lt (u32OfInt_lt wc2)] at hl
+  unfold ltAddr
+  by_cases heq : u32OfInt wc1 = u32OfInt wc2
+  · rw [heq]
+    simp [lexLt_irrefl]
+  · have hne : (natToBits 32 (u32OfInt wc1) == natToBits 32 (u32OfInt wc2)) = false := by
+      simp only [beq_eq_false_iff_ne, ne_eq]
+      intro hb
+      have := congrArg bitsToNat hb
+      simp only [bitsToNat_natToBits, Nat.mod_eq_of_lt (u32OfInt_lt wc1), Nat.mod_eq_of_lt (u32OfInt_lt wc2)] at this
+      exact heq this
+    have hne2 : (u32OfInt wc1 == u32OfInt wc2) = false := by simpa using heq
+    simp only [hne, hne2, Bool.false_and, Bool.or_false]
+    cases hlx : lexLt (natToBits 32 (u32OfInt wc1)) (natToBits 32 (u32OfInt wc2))
+    · simp only [decide_eq_false_iff_not]; intro h2; rw [hl.mpr h2] at hlx; cases hlx
+    · simp only [decide_eq_true_eq]; exact hl.mp hlx
+
 end Tongo.Hashmap
